@@ -283,7 +283,7 @@ func init() {
 		Level: "exploration",
 		Rule: "cases: every ordered pair (A,B) of coordinates from a grid: dimension 1 with components {0,±1e-6,±0.5,±1,±3,±1e4} x heights {0,1e-6,1e-5,0.5,1,3,1e4}; dimension 2 over {0,0.5,-3,1e4}^2 x heights {0,1e-5,0.5,1e4} (thorough {0,±1e-6,±0.5,1,-3,±1e4}^2 x heights {0,1e-5,0.5,1,1e4}); dimension 3 over {0,3,-4}^3 x heights {0,0.5}; dimension 8 over 13 pattern vectors x heights {0,1e-5,0.5,1e4} (thorough all 7 heights); " +
 			"adjustment of A from {0,±1e-17,±1e-9,±0.5,±1,±1e4,±1e300,±1e10,9.2e9,12345678.9,-87654321.0123,-raw,-raw/2} and of B from the same fixed values plus the five floats around -(raw+adjA) (the guard) and -raw-adjA evaluated in the other order; each case evaluates the real DistanceTo in both orders against a 2048-bit evaluation of the documented formula. " +
-			"non-trivial = at least one adjustment is non-zero and the two coordinates differ. mismatch: every ordered pair of dimensions from {0,1,2,3,7,8,9} x 3 fillings: different dimensions must panic with DimensionalityConflictError, equal ones must not",
+			"every dimensionality 1..12 in ascending and again in descending order (each one also after a larger one in the same process); non-trivial = at least one adjustment is non-zero and the two coordinates differ. mismatch: every ordered pair of dimensions from {0,1,2,3,7,8,9} x 3 fillings: different dimensions must panic with DimensionalityConflictError, equal ones must not",
 		Assumptions: []string{
 			"'up to floating-point rounding' = |estimate - formula| <= 1 ns + 64*2^-53*(distance+heights+|adjA|+|adjB|); when the exact adjusted sum is zero within that allowance either side of the 'keeps it positive' guard is accepted for the formula clause, unless every float64 evaluation order of the sums is exact (then the formula applies strictly); the symmetry clause is demanded regardless",
 			"'symmetric to within a nanosecond' = |d(A,B)-d(B,A)| <= 1 ns exactly as stated, for any finite adjustments",
@@ -340,6 +340,16 @@ func c21run(ctx *vc.Ctx) {
 		}
 		vecs = append(vecs, ramp)
 		grids = append(grids, grid{fmt.Sprintf("every-dimension/dim%d", d), vecs, []float64{0, 0.5}})
+	}
+	// ... and again in descending order, so that every dimensionality is also computed after a larger
+	// one in the same process (scratch space kept from an earlier, longer vector)
+	for d := 11; d >= 1; d-- {
+		ramp, first, last := make([]float64, d), make([]float64, d), make([]float64, d)
+		for i := 0; i < d; i++ {
+			ramp[i] = 0.01 * float64(i+1)
+		}
+		first[0], last[d-1] = 0.5, -0.5
+		grids = append(grids, grid{fmt.Sprintf("every-dimension/after-a-larger-one/dim%d", d), [][]float64{make([]float64, d), first, last, ramp}, []float64{0, 0.5}})
 	}
 	fixed := c21signs([]float64{0, 1e-17, 1e-9, 0.5, 1, 1e4, 1e300, 1e10})
 	fixed = append(fixed, 9.2e9, 12345678.9, -87654321.0123)
